@@ -1281,9 +1281,36 @@ func (s *sim) execReplay(op Op) {
 	if s.skipKnown(s.replayTrigger(b)) {
 		return
 	}
+	if s.c10 {
+		// crash/restart unit: a replayed header stands for block sync on a chain with less than one third
+		// of faulty power, where a height has one certificate. The free vote ops of that profile may have
+		// made validators precommit other blocks of this height (any round); with a second certificate in
+		// play the block a node commits depends on the order in which it evaluates its votes, and a
+		// restart legitimately changes that order. Such replays are not generated.
+		hash := string(b.Header.Hash)
+		for k, targets := range s.signed {
+			var kind int
+			var hh uint64
+			var rr, vi int
+			if n, _ := fmt.Sscanf(k, "%d/%d/%d/%d", &kind, &hh, &rr, &vi); n != 4 || kind != 1 || hh != b.H {
+				continue
+			}
+			for t := range targets {
+				if t != hash && t != "" {
+					s.label("replay-skipped:other-block-precommitted")
+					return
+				}
+			}
+		}
+	}
 	if s.recorder != nil {
 		rb := b
 		s.recorder(delivery{Replay: &rb})
+	}
+	if s.realCertificates {
+		// the precommits of a certificate from the real chain are votes those validators cast:
+		// honest actors (round macro, later replays) never sign a second target for that round
+		s.recordSigned(builtVote{Kind: 1, H: b.H, R: b.R, Set: s.setFor(b.H), Proofs: b.Proof.Proofs})
 	}
 	resp := make(chan tmelink.ReplayedHeaderResponse, 1)
 	var out tmelink.ReplayedHeaderResponse
